@@ -383,7 +383,26 @@ def find_method(prog, name):
 
 def _run_scanner(prog, body, text):
     from .. import mirexec
-    model = mirexec.ScannerModel(text, extra={"Lexer::<'a>::error": lambda fr, args, t: ("variant", "Error", -1, [])})
+    def char_pred(fr, args, t):
+        # a pure character predicate of the lexer (is_newline, is_identifier_start, ..) evaluated from its own MIR
+        callee = t["f"].get("fn")
+        a = args[0] if args else None
+        n = 0
+        while a is not None and a[0] == "ref" and n < 4:
+            a = fr.read_place(a[1])
+            n += 1
+        if a is None or a[0] != "int":
+            raise mirexec.Unsupported("call to %s with a non-character argument" % callee)
+        v = paths.eval_char_pred(prog, callee, chr(a[1]))
+        if v is None:
+            raise mirexec.Unsupported("call to %s could not be evaluated" % callee)
+        return ("int", 1 if v else 0)
+    extra = {"Lexer::<'a>::error": lambda fr, args, t: ("variant", "Error", -1, [])}
+    for pth, pb in prog.bodies.items():
+        if pth.startswith("syntax::lexer::") and not pb.parent and pb.argc == 1 and "Lexer" not in pth and \
+                pb.local_ty(0) == "bool" and pb.local_ty(1) in ("char", "&char"):
+            extra[pth] = char_pred
+    model = mirexec.ScannerModel(text, extra=extra)
     fr = mirexec.Frame(body, model)
     fr.locals[1] = ("self", ())
     out = fr.run(0)
